@@ -144,7 +144,15 @@ func (pr *Program) VerifyFunc(fi *FuncInfo) (rep *FuncReport) {
 		return
 	}
 	x.loopOrds = numberLoops(fi.Decl.Body)
-	end := x.execBlock(s, fi.Decl.Body.List)
+	// the body's top-level scope stays open so that contracts can name top-level locals in postconditions
+	cc.env = NewEnv(cc.env)
+	end := s
+	for _, st := range fi.Decl.Body.List {
+		if end == nil {
+			break
+		}
+		end = x.execStmt(end, st)
+	}
 	if end != nil {
 		var vals []*Value
 		for _, cell := range cc.resCells {
@@ -156,21 +164,43 @@ func (pr *Program) VerifyFunc(fi *FuncInfo) (rep *FuncReport) {
 	for _, e := range cc.exits {
 		if e.Kind == "panic" {
 			rep.PanicExits++
-			if cc.recovers {
-				var vals []*Value
-				for _, cell := range cc.resCells {
-					vals = append(vals, e.S.Heap[cell])
-				}
-				x.runRecoverHandler(cc, e, &vals)
-				if e.S.PC.Op != "false" {
-					rets = append(rets, &Exit{Kind: "return", S: e.S, Vals: vals, Pos: e.Pos})
+		}
+		if e.Kind == "return" && len(cc.resCells) > 0 && len(cc.defers) > 0 {
+			for i, cell := range cc.resCells {
+				if i < len(e.Vals) {
+					e.S.Heap[cell] = e.Vals[i]
 				}
 			}
+		}
+		x.runDefers(cc, e)
+		if e.S.PC.Op == "false" {
 			continue
 		}
-		rets = append(rets, e)
+		if e.Kind == "return" {
+			if e.Vals == nil {
+				for _, cell := range cc.resCells {
+					e.Vals = append(e.Vals, e.S.Heap[cell])
+				}
+			}
+			rets = append(rets, e)
+		}
 	}
 	rep.Exits = len(rets)
+	if c.NoPanic {
+		// callee panics that are not recovered, and panics raised inside the recover handler: must be unreachable
+		var pcs []*Term
+		for _, e := range cc.exits {
+			if e.Kind == "panic" && e.S.PC.Op != "false" {
+				pcs = append(pcs, e.S.PC)
+			}
+		}
+		for _, e := range cc.escaped {
+			pcs = append(pcs, e.S.PC)
+		}
+		if len(pcs) > 0 {
+			x.Obls = append(x.Obls, &Obligation{Name: x.fnTag + "/nopanic:unrecovered", Prop: c.Prop(), Kind: "nopanic", Hyp: True, Goal: Not(Or(pcs...)), Pos: pr.Pos(fi.Decl.Pos()), Inputs: x.entryInputs})
+		}
+	}
 	// postconditions
 	proved := map[string][]*Term{} // tag -> goal per exit (earlier ensures usable as hypotheses via "by")
 	for _, cl := range c.Clauses {
@@ -221,6 +251,29 @@ func (pr *Program) VerifyFunc(fi *FuncInfo) (rep *FuncReport) {
 			}
 			x.Obls = append(x.Obls, &Obligation{Name: fmt.Sprintf("%s/cover#%s", x.fnTag, cl.Tag), Prop: cl.propOr(c.Prop()), Kind: "cover", Cover: true, Hyp: True, Goal: reach, Pos: pr.Pos(fi.Decl.Pos()), Src: cl.Src, Inputs: x.entryInputs})
 		}
+	}
+	// frame: the inferred write set (outside wrapped all-or-nothing steps) must be within the declared modifies clause
+	if c.HasMod {
+		fx := NewExec(pr)
+		fx.skipWrapped = true
+		ws := WriteSet{}
+		fx.collectWrites(fi.Decl.Body, fi.Pkg.P.TypesInfo, fi.Pkg, ws, map[*FuncInfo]bool{fi: true})
+		allowed := map[string]bool{}
+		for _, m := range c.Modifies {
+			allowed[m] = true
+		}
+		var extra []string
+		for m := range ws {
+			if !allowed[m] && !allowed["*"] {
+				extra = append(extra, m)
+			}
+		}
+		sort.Strings(extra)
+		src := "modifies " + strings.Join(c.Modifies, ", ")
+		if len(extra) > 0 {
+			src += " — but the body may also write: " + strings.Join(extra, ", ")
+		}
+		x.Obls = append(x.Obls, staticObl(x.fnTag+"/frame#modifies", c.Prop(), "frame", len(extra) == 0, pr.Pos(fi.Decl.Pos()), src))
 	}
 	// automatic cover: some successful return is reachable
 	okReach := False
@@ -418,6 +471,9 @@ func (x *Exec) applyContract(s *State, fi *FuncInfo, recv *Value, args []*Value,
 	}
 	x.bindPostLets(s, c, sc)
 	for _, cl := range c.Clauses {
+		if cl.Internal {
+			continue
+		}
 		switch cl.Kind {
 		case "ensures":
 			s.Assume(x.evalClause(s, cl, sc))
